@@ -18,27 +18,27 @@ import (
 // chain, guard forms, hoisted locals) plays no part.
 
 type t1Outcome struct {
-	err     bool     // the decoder returns an error
-	errName string   // rendering of the error value
-	calls   []string // helper calls: kind(arg,…)
-	cleared bool     // the operand stack was emptied
-	newTop  string   // value appended / stored on the operand stack, if any
-	stack   string   // rendering of the final stack value
-	ps, flex string  // PostScript stack and flex buffer after the pass
+	err      bool     // the decoder returns an error
+	errName  string   // rendering of the error value
+	calls    []string // helper calls: kind(arg,…)
+	cleared  bool     // the operand stack was emptied
+	newTop   string   // value appended / stored on the operand stack, if any
+	stack    string   // rendering of the final stack value
+	ps, flex string   // PostScript stack and flex buffer after the pass
 	appended []string // values appended to slices other than the operand stack
-	flags   map[string]bool
-	panics  bool
-	back    bool     // the pass ended by going on to the next command
-	ret     bool     // returned without error
-	why     string
-	effects []ssaEffect
+	flags    map[string]bool
+	panics   bool
+	back     bool // the pass ended by going on to the next command
+	ret      bool // returned without error
+	why      string
+	effects  []ssaEffect
 }
 
 type t1Machine struct {
-	c        *Ctx
-	fn       *ssa.Function
-	inner    *ssa.BasicBlock // header of the per-command loop
-	kinds    map[*ssa.Function]string
+	c     *Ctx
+	fn    *ssa.Function
+	inner *ssa.BasicBlock // header of the per-command loop
+	kinds map[*ssa.Function]string
 	// flexFirst: of the two []float64 values carried by the command loop the first one (in phi
 	// order) is the flex buffer, the second the PostScript stack
 	flexFirst bool
